@@ -70,3 +70,13 @@ Lemma lxor_inj_r a b c : N.lxor a c = N.lxor b c -> a = b.
 Proof.
   intros H. rewrite <- (lxor_cancel_r a c), H. apply lxor_cancel_r.
 Qed.
+
+(** or-ing a value shifted above the bits of [acc] is an addition *)
+Lemma lor_shift_add acc d k : acc < 2^k -> N.lor acc (d * 2^k) = acc + 2^k * d.
+Proof.
+  intros Hacc. rewrite add_shift_lxor by exact Hacc. rewrite (N.mul_comm d).
+  symmetry. apply N.lxor_lor. apply N.bits_inj_iff; intro m. rewrite N.land_spec, N.bits_0.
+  destruct (N.lt_ge_cases m k) as [L|G].
+  - rewrite N.mul_comm, N.mul_pow2_bits_low by exact L. apply andb_false_r.
+  - rewrite (testbit_high_lt acc _ m Hacc G). reflexivity.
+Qed.
